@@ -103,6 +103,7 @@ type peerCase struct {
 	isTCP bool
 	cert  *addr.IA // IA authenticated by the certificate (nil: none)
 	sane  bool     // a TCP address whose IP has 4 or 16 bytes (what a real connection yields)
+	skid  []byte   // subject key identifier of the presented leaf certificate
 }
 
 func genIP(r *vlib.Rand) net.IP {
@@ -120,7 +121,7 @@ func genIP(r *vlib.Rand) net.IP {
 	}
 }
 
-func mkPeer(r *vlib.Rand, ip net.IP, wantCert bool, certIA addr.IA) peerCase {
+func mkPeer(r *vlib.Rand, ip net.IP, wantCert bool, certIA addr.IA, skid []byte) peerCase {
 	var pc peerCase
 	if r.Chance(2) {
 		pc.op = "nopeer"
@@ -156,7 +157,7 @@ func mkPeer(r *vlib.Rand, ip net.IP, wantCert bool, certIA addr.IA) peerCase {
 	}
 	leaf := func(cn string) credentials.TLSInfo {
 		return credentials.TLSInfo{State: tls.ConnectionState{PeerCertificates: []*x509.Certificate{
-			{Subject: pkix.Name{CommonName: cn}}, {Subject: pkix.Name{CommonName: "ca"}}}}}
+			{Subject: pkix.Name{CommonName: cn}, SubjectKeyId: skid}, {Subject: pkix.Name{CommonName: "ca"}}}}}
 	}
 	switch {
 	case k < 70:
@@ -176,7 +177,7 @@ func mkPeer(r *vlib.Rand, ip net.IP, wantCert bool, certIA addr.IA) peerCase {
 	default:
 		auth = "none"
 	}
-	pc.p, pc.op = p, aop+"/"+auth
+	pc.p, pc.op, pc.skid = p, aop+"/"+auth, skid
 	return pc
 }
 
@@ -284,6 +285,42 @@ func entryOp(hp config.HostProto) string {
 	return fmt.Sprintf("6.%s.%d.%s", vlib.Hex(h.AsSlice()), hp.Proto, vlib.Hex([]byte(h.Zone())))
 }
 
+// history is one long-lived Server instance and what it has been asked so far: the decisions
+// must not depend on earlier requests (the model is a function of the current request only).
+type history struct {
+	srv     *dkgrpc.Server
+	local   addr.IA
+	entries []config.HostProto
+	set     map[config.HostProto]struct{}
+	ias     []addr.IA // ISD-ASes the certificates of this history authenticate
+	skids   [][]byte  // subject key identifiers used (and re-used) by genuine and forged certificates
+	log     []string
+}
+
+func genAllow(r *vlib.Rand) ([]config.HostProto, map[config.HostProto]struct{}) {
+	set := map[config.HostProto]struct{}{}
+	var entries []config.HostProto
+	for j, ne := 0, r.Intn(5); j < ne; j++ {
+		eip := genIP(r)
+		a, _ := netip.AddrFromSlice(eip)
+		switch r.Intn(8) {
+		case 0: // keep a mapped literal as configured text would give it
+		case 1:
+			if a.Is6() && !a.Is4In6() {
+				a = a.WithZone("eth0")
+			}
+		default:
+			a = a.Unmap()
+		}
+		hp := config.HostProto{Host: a, Proto: drkey.Protocol(genProto(r))}
+		if _, dup := set[hp]; !dup {
+			set[hp] = struct{}{}
+			entries = append(entries, hp)
+		}
+	}
+	return entries, set
+}
+
 func main() {
 	e := vlib.Init()
 	r := vlib.NewRand(uint64(e.Seed))
@@ -292,15 +329,21 @@ func main() {
 		"absent / non-TLS / no certificate / rejected chain / chain authenticating an ISD-AS; protocol ids incl. " +
 		"Generic, niche, values that truncate to Generic/SCMP, negative; timestamps valid, nil, out of range; request " +
 		"hosts naming the requester in several textual forms, a host one bit away, other hosts, service names, zoned " +
-		"and malformed text; allow-lists with IPv4, IPv6, IPv4-mapped and zoned entries; non-trivial = the engine " +
-		"was called (a key would be handed out)"
+		"and malformed text; allow-lists with IPv4, IPv6, IPv4-mapped and zoned entries; first every request on a " +
+		"fresh Server, then histories of 4-16 requests on ONE long-lived Server (level-1 heavy: genuine and forged / " +
+		"other-AS certificates sharing or not sharing a SubjectKeyId, in either order; the verifier stub decides per " +
+		"presented chain) - the stateless model must still predict every answer; non-trivial = the engine was " +
+		"called (a key would be handed out)"
 	ctx := context.Background()
 	eng := &recEngine{}
-	n := e.N(40000, 600000)
-	for i := 0; i < n; i++ {
+	n := e.N(30000, 450000)
+	step := func(h *history) {
 		local := addr.IA(r.U64())
 		if r.Chance(50) {
 			local = addr.MustParseIA("1-ff00:0:110")
+		}
+		if h != nil {
+			local = h.local
 		}
 		otherIA := func() addr.IA {
 			switch r.Intn(4) {
@@ -317,6 +360,12 @@ func main() {
 		proto := genProto(r)
 		kind := []string{"l1", "il1", "sv", "ah", "ha", "hh"}[r.Intn(6)]
 		srv := &dkgrpc.Server{LocalIA: local, ClientCertificateVerifier: certVerifier{}, Engine: eng}
+		if h != nil {
+			srv = h.srv
+			if r.Chance(50) {
+				kind = "l1"
+			}
+		}
 		eng.reset()
 		var op string
 		var err error
@@ -332,12 +381,23 @@ func main() {
 			for k, v := range extra {
 				rp[k] = v
 			}
+			if pc.p != nil {
+				rp["cert_subject_key_id"] = vlib.Hex(pc.skid)
+			}
+			if h != nil {
+				rp["request"] = op
+				rp["history_on_same_server"] = append([]string(nil), h.log...)
+			}
 			e.Violate("C40/"+key, what, rp)
 		}
 		tag := kind
 		switch kind {
 		case "l1":
-			pc = mkPeer(r, ip, true, otherIA())
+			if h != nil {
+				pc = mkPeer(r, ip, true, h.ias[r.Intn(len(h.ias))], h.skids[r.Intn(len(h.skids))])
+			} else {
+				pc = mkPeer(r, ip, true, otherIA(), r.Bytes(r.Intn(3)*4))
+			}
 			op = fmt.Sprintf("l1 %d %s %d %s", uint64(local), pc.op, proto, ts.op)
 			_, ok := vlib.Safe(func() string {
 				_, err = srv.DRKeyLevel1(mkCtx(), &cppb.DRKeyLevel1Request{ValTime: ts.ts, ProtocolId: dkpb.Protocol(proto)})
@@ -357,25 +417,9 @@ func main() {
 			}
 		case "il1", "sv":
 			// allow-list
-			set := map[config.HostProto]struct{}{}
-			var entries []config.HostProto
-			for j, ne := 0, r.Intn(5); j < ne; j++ {
-				eip := genIP(r)
-				a, _ := netip.AddrFromSlice(eip)
-				switch r.Intn(8) {
-				case 0: // keep a mapped literal as configured text would give it
-				case 1:
-					if a.Is6() && !a.Is4In6() {
-						a = a.WithZone("eth0")
-					}
-				default:
-					a = a.Unmap()
-				}
-				hp := config.HostProto{Host: a, Proto: drkey.Protocol(genProto(r))}
-				if _, dup := set[hp]; !dup {
-					set[hp] = struct{}{}
-					entries = append(entries, hp)
-				}
+			entries, set := genAllow(r)
+			if h != nil {
+				entries, set = h.entries, h.set
 			}
 			if len(entries) > 0 && r.Chance(75) { // requester taken from the list
 				pick := entries[r.Intn(len(entries))]
@@ -399,7 +443,7 @@ func main() {
 				}
 				al = strings.Join(parts, ",")
 			}
-			pc = mkPeer(r, ip, false, 0)
+			pc = mkPeer(r, ip, false, 0, nil)
 			configured := func(p drkey.Protocol) bool {
 				if !pc.isTCP {
 					return false
@@ -459,7 +503,7 @@ func main() {
 				}
 			}
 		default: // ah, ha, hh
-			pc = mkPeer(r, ip, false, 0)
+			pc = mkPeer(r, ip, false, 0, nil)
 			src, dst := otherIA(), otherIA()
 			srcMatch, dstMatch := r.Chance(30), r.Chance(30)
 			switch kind {
@@ -560,7 +604,36 @@ func main() {
 			tag += "/inconsistent"
 			bad("handler-inconsistent", "handler result and engine calls disagree: "+ans, nil)
 		}
+		if h != nil {
+			tag += "/reused"
+			h.log = append(h.log, op+" => "+ans)
+		}
 		e.Op(op, ans, tag)
+	}
+	for i := 0; i < n; i++ {
+		step(nil)
+	}
+	// histories on one long-lived Server each
+	for done := 0; done < e.N(10000, 150000); {
+		h := &history{local: addr.IA(r.U64())}
+		if r.Chance(50) {
+			h.local = addr.MustParseIA("1-ff00:0:110")
+		}
+		h.entries, h.set = genAllow(r)
+		h.ias = []addr.IA{addr.IA(r.U64()), addr.IA(r.U64())}
+		h.skids = [][]byte{r.Bytes(20), r.Bytes(20), nil}
+		if r.Chance(30) { // all certificates of this history carry different key identifiers (control)
+			for j := 0; j < 12; j++ {
+				h.skids = append(h.skids, r.Bytes(20))
+			}
+			h.skids = h.skids[3:]
+		}
+		h.srv = &dkgrpc.Server{LocalIA: h.local, ClientCertificateVerifier: certVerifier{}, Engine: eng,
+			AllowedSVHostProto: h.set}
+		for j, l := 0, r.Range(4, 16); j < l; j++ {
+			step(h)
+			done++
+		}
 	}
 	e.Finish()
 }
